@@ -23,6 +23,7 @@ Inductive case :=
 | CFT (dstored slot op n : Z) (o : ftobs)                                      (* Get/Set/Add/SubFT on a coin bound with dstored decimals *)
 | CSite (s : string)                                                           (* one call site of the conversion functions found in the Go sources *)
 | CSiteCount (n : Z)
+| CSum (hs : list string) (total : Z)                                          (* amounts of one target list; total moved *)
 | CConst (prec md pbase dec base : Z).         (* constants read from the Go source: ParseFloat(s, pbase, prec, md), defaultDecimal, baseNumber *)
 
 (* account database, ERC20-bound coins (Ledger.v) *)
@@ -66,6 +67,9 @@ Definition check (c : case) : bool :=
       let b := system_binding is_sub [] in (b_position b =? gotPos) && (b_decimal b =? gotDec)
   | CFT dstored slot op n o => check_ft dstored slot op n o
   | CSite s => existsb (String.eqb s) covered_sites
+  | CSum hs total =>
+      match fold_left (fun acc h => match acc, str_to_bigint (unhex h) with Some a, Ok v => Some (a + v) | _, _ => None end) hs (Some 0) with
+      | Some t => t =? total | None => false end
   | CSiteCount n => n =? Z.of_nat (List.length covered_sites)
   | CConst prec md pbase dec base =>
       (prec =? code_prec) && (md =? mode_code code_mode) && (pbase =? 10) && (dec =? default_decimal) && (base =? 10 ^ default_decimal)
